@@ -38,6 +38,11 @@ LISTS = {
 TYPEHINT = {"F": "LogicalFunction", "IP": "FunctionInputPort", "OP": "FunctionOutputPort",
             "C": "LogicalComponent", "PK": "DataPkg", "K": "Class", "PR": "Property"}
 AKEYS = ["name", "description", "summary"]
+# reference-valued attributes that can serve as find keys.  The sync model's attribute values are strings; a reference
+# is injected as NUL + UUID of its target (no string attribute read from XML can start with NUL), None as ""
+RKEYS = {"K": ["super"], "PR": ["type"]}
+OKEYS = AKEYS + ["super", "type"]
+REFMARK = "\x00"
 LKEYS = sorted({a for t in LISTS.values() for a in t})
 NASTY = ["plain", "a'b", 'a"b', "a: b", "!x", "- y", "# z", "a\nb", "a\tb", " lead", "trail ", "é", "日本", "\U0001F600",
          "<b>", "a&b", "null", "true", "~", "1", "1.5", "0o7", "2001-01-01", "=", "<<", "\\", "%", "@", "`", "{", "[", "]",
@@ -63,6 +68,9 @@ class Base:
 def extract(obj, typ, depth=8):
     """the part of the model the sync model talks about: string attributes and the schema's child lists"""
     attrs = [[k, str(getattr(obj, k) or "")] for k in AKEYS]
+    for k in RKEYS.get(typ, []):
+        tgt = getattr(obj, k)
+        attrs.append([k, REFMARK + tgt.uuid if tgt is not None else ""])
     kids = []
     if depth:
         for a, ct in LISTS[typ].items():
@@ -73,7 +81,7 @@ def extract(obj, typ, depth=8):
 def observe(tree):
     attrs = dict((k, v) for k, v in tree[0])
     kids = dict((a, l) for a, l in tree[1])
-    return [[attrs.get(k, "") for k in AKEYS], [[observe(x) for x in kids.get(a, [])] for a in LKEYS]]
+    return [[attrs.get(k, "") for k in OKEYS], [[observe(x) for x in kids.get(a, [])] for a in LKEYS]]
 
 
 def tsize(tree):
@@ -86,53 +94,168 @@ def xml_snapshot(model):
 
 
 # ------------------------------------------------------------------ (a) sync documents
-def gen_groups(rng, typ, tree, depth, names_pool, stats):
-    """sync groups for an object of type `typ` whose current content is `tree`; returns (yaml dict, val)"""
+def setup_state(rng, parent, typ, pool, stats):
+    """pre-existing content created through the API before the document is applied: siblings that share a name (a find
+    key then matches several objects), that differ in description / summary only, children, classes to refer to"""
+    names = [rng.choice(pool) + rng.choice(["", str(rng.randint(0, 3))]) for _ in range(2)]
+    for a, ct in LISTS[typ].items():
+        for _ in range(rng.choice([0, 0, 1, 2, 2, 3])):
+            kw = {"name": rng.choice(names)}
+            if rng.random() < 0.4:
+                kw["description"] = rng.choice(PLAIN)
+            if rng.random() < 0.3:
+                kw["summary"] = rng.choice(PLAIN)
+            o = getattr(parent, a).create(**kw)
+            stats["setup_objects"] += 1
+            for a2, _ct2 in LISTS[ct].items():
+                for _ in range(rng.choice([0, 0, 0, 1, 2])):
+                    getattr(o, a2).create(name=rng.choice(names))
+                    stats["setup_objects"] += 1
+    if typ == "PK" and rng.random() < 0.7:
+        for i in range(rng.randint(1, 2)):
+            parent.classes.create(name="tgt%d %s" % (i, rng.choice(PLAIN)))
+            stats["setup_objects"] += 1
+
+
+def ref_targets(model):
+    """classes a reference-valued find key / set value can point at: (uuid, name, unique by type and name)"""
+    ks = list(model.search("Class"))
+    names = [k.name for k in ks]
+    return [(k.uuid, k.name, bool(k.name) and names.count(k.name) == 1) for k in ks[:8]]
+
+
+class RefPH:
+    """placeholder of a reference value; written as !uuid or !find once the whole document is known"""
+    def __init__(self, tgt):
+        self.tgt = tgt
+
+
+def ref_value(rng, tgt, stats):
+    """(yaml value, model value) of a reference to a target class"""
+    return RefPH(tgt), REFMARK + tgt[0]
+
+
+def settle_refs(rng, y, class_names, stats):
+    """replace the placeholders: !find {_type: Class, name} only where the match set cannot change (find_stable): the
+    name is unique among the classes of the model and no class entry of the document carries it; else !uuid"""
+    from capellambse import decl
+    if isinstance(y, RefPH):
+        u, name, uniq = y.tgt
+        if uniq and name not in class_names and rng.random() < 0.5:
+            stats["ref_as_find"] += 1
+            return decl.FindBy({"_type": "Class", "name": name})
+        stats["ref_as_uuid"] += 1
+        return decl.UUIDReference(u)
+    if isinstance(y, dict):
+        return {k: settle_refs(rng, v, class_names, stats) for k, v in y.items()}
+    if isinstance(y, list):
+        return [settle_refs(rng, v, class_names, stats) for v in y]
+    return y
+
+
+def class_entry_names(y, out):
+    if isinstance(y, dict):
+        for k, v in y.items():
+            if k == "classes" and isinstance(v, list):
+                for e in v:
+                    out.add(e["find"]["name"])
+            class_entry_names(v, out)
+    elif isinstance(y, list):
+        for v in y:
+            class_entry_names(v, out)
+    return out
+
+
+def n_matching(find, siblings):
+    return sum(1 for x in siblings if all(dict(map(tuple, x[0])).get(k, "") == v for k, v in find))
+
+
+def gen_groups(rng, typ, tree, depth, names_pool, stats, targets):
+    """sync groups for an object of type `typ` whose current content is `tree`; returns (yaml dict, val).
+    The find keys of an entry are chosen relative to the existing siblings so that they match none, exactly one or
+    several of them; their values are scalars, !uuid references or !find directives."""
     ydict, val = {}, []
     attrs = list(LISTS[typ])
     rng.shuffle(attrs)
     for a in attrs[: rng.randint(1, len(attrs))] if attrs else []:
         ct = LISTS[typ][a]
         existing = dict(tree[1]).get(a, []) if tree else []
-        ex_names = [dict(x[0])["name"] for x in existing]
+        ex_names = [dict(map(tuple, x[0]))["name"] for x in existing]
         used = set()
         entries_y, entries_v = [], []
         for _ in range(rng.randint(1, 3)):
-            # find an existing object (when its name is unique among its siblings) or create one
-            cands = [(n, x) for n, x in zip(ex_names, existing) if ex_names.count(n) == 1 and n not in used and n]
-            if cands and rng.random() < 0.4:
-                name, sub = rng.choice(cands)
-                stats["found"] += 1
+            keys = ["description", "summary"]
+            rng.shuffle(keys)
+            find = []
+            sub = None
+            r = rng.random()
+            if existing and r < 0.5:
+                # aim at an existing object: by its name alone, or by its name and further attributes as they are
+                sub = rng.choice(existing)
+                sa = dict(map(tuple, sub[0]))
+                name = sa["name"]
+                if not name:
+                    continue
+                find.append(("name", name))
+                for k in list(keys):
+                    if rng.random() < 0.25 and sa.get(k, "") not in ("",) and not any(c in sa[k] for c in "&<>\"'"):
+                        find.append((k, sa[k]))
+                        keys.remove(k)
+                for k in RKEYS.get(ct, []):
+                    if sa.get(k) and rng.random() < 0.5:
+                        find.append((k, sa[k]))
             else:
                 name = rng.choice(names_pool) + rng.choice(["", "", str(rng.randint(0, 9))])
-                if name in used or name in ex_names:
-                    continue
-                sub = None
-                stats["created"] += 1
+                find.append(("name", name))
+                if rng.random() < 0.35:
+                    k = keys.pop()
+                    find.append((k, rng.choice(PLAIN if k == "description" else PLAIN + NASTY[:20])))
+                    stats["extra_find_key"] += 1
+            # the same name twice in one list is allowed now and then (find keys that overlap inside the document)
+            if name in used and rng.random() < 0.8:
+                continue
             used.add(name)
-            find = [("name", name)]
-            fy = {"name": name}
+            # reference-valued find key on a fresh target
+            refs_y = {}
+            for k in RKEYS.get(ct, []):
+                if targets and not any(k == k2 for k2, _ in find) and rng.random() < 0.45:
+                    yv, mv = ref_value(rng, rng.choice(targets), stats)
+                    find.append((k, mv))
+                    refs_y[k] = yv
+                    stats["ref_find_key"] += 1
+            nm = n_matching(find, existing)
+            stats["match_" + ("0" if nm == 0 else "1" if nm == 1 else "many")] += 1
+            sub = next(x for x in existing if n_matching(find, [x])) if nm == 1 else None
+            tgt_by_mark = {REFMARK + t[0]: t for t in targets}
+            fy = {}
+            for k, v in find:
+                if k in refs_y:
+                    fy[k] = refs_y[k]
+                elif v.startswith(REFMARK):
+                    fy[k] = RefPH(tgt_by_mark.get(v) or (v[1:], None, False))
+                    stats["ref_find_key"] += 1
+                else:
+                    fy[k] = v
             if rng.random() < 0.3:
                 fy["_type"] = TYPEHINT[ct]
                 stats["type_hint"] += 1
-            keys = ["description", "summary"]
-            rng.shuffle(keys)
-            if sub is None and rng.random() < 0.35:
-                k = keys.pop()
-                v = rng.choice(PLAIN if k == "description" else PLAIN + NASTY[:20])
-                find.append((k, v))
-                fy[k] = v
-                stats["extra_find_key"] += 1
-            sets = []
+            sets, sets_y = [], {}
             for k in keys:
                 if rng.random() < 0.5:
-                    sets.append((k, rng.choice(PLAIN) + str(rng.randint(0, 9))))
+                    v = rng.choice(PLAIN) + str(rng.randint(0, 9))
+                    sets.append((k, v))
+                    sets_y[k] = v
+            if ct == "PR" and targets and not any(k == "type" for k, _ in find) and rng.random() < 0.4:
+                yv, mv = ref_value(rng, rng.choice(targets), stats)      # `type` is a plain attribute: exact idempotence
+                sets.append(("type", mv))
+                sets_y["type"] = yv
+                stats["ref_set_value"] += 1
             e_y = {"find": fy}
             if sets:
-                e_y["set"] = dict(sets)
+                e_y["set"] = sets_y
             nested_v = []
             if depth and LISTS[ct] and rng.random() < 0.55:
-                ny, nested_v = gen_groups(rng, ct, sub, depth - 1, names_pool, stats)
+                ny, nested_v = gen_groups(rng, ct, sub, depth - 1, names_pool, stats, targets)
                 if ny:
                     e_y["sync"] = ny
                     stats["nested"] += 1
@@ -144,12 +267,33 @@ def gen_groups(rng, typ, tree, depth, names_pool, stats):
     return ydict, val
 
 
-def apply_twice(base, typ, ydoc):
+def wf_val(groups) -> bool:
+    """find_keys_stable of the model (wf_groups), recomputed on the encoded document"""
+    seen_attr = set()
+    for a, entries in groups:
+        if a in seen_attr:
+            return False
+        seen_attr.add(a)
+        names = []
+        for find, sets, nested in entries:
+            fk, sk = [k for k, _ in find], [k for k, _ in sets]
+            if "name" not in fk or len(set(fk)) != len(fk) or len(set(sk)) != len(sk) or set(fk) & set(sk):
+                return False
+            names.append(dict(map(tuple, find))["name"])
+            if not wf_val(nested):
+                return False
+        if len(set(names)) != len(names):
+            return False
+    return True
+
+
+def apply_twice(base, typ, ydoc, model=None):
     """returns ([tree1, tree2] or error markers, xml snapshots, text)"""
     import yaml
     from capellambse import decl
     text = yaml.dump(ydoc, Dumper=decl.YDMDumper, sort_keys=False)
-    model = base.load()
+    if model is None:
+        model = base.load()
     parent = model.by_uuid(base.roots[typ])
     t0 = extract(parent, typ)
     trees, snaps = [], []
@@ -178,39 +322,55 @@ def run(chk: lib.Check):
     bases = {t: Base(t) for t in (["empty52", "melody52"] if quick else list(MODELS))}
 
     # ================================================================== (a)
-    stats = {"documents": 0, "found": 0, "created": 0, "nested": 0, "type_hint": 0, "extra_find_key": 0,
-             "errors": 0, "runs": 0}
+    stats = {"documents": 0, "match_0": 0, "match_1": 0, "match_many": 0, "nested": 0, "type_hint": 0, "extra_find_key": 0,
+             "ref_find_key": 0, "ref_set_value": 0, "ref_as_uuid": 0, "ref_as_find": 0, "setup_objects": 0, "not_wf": 0,
+             "errors": 0, "first_run_ambiguous": 0, "runs": 0}
     cases, descr = [], []
     ndocs = 110 if quick else 1500
     for d in range(ndocs):
         tag = rng.choice(list(bases)) if d % 3 else "empty52"
         base = bases[tag]
-        typ = rng.choice(["F", "F", "C", "PK"])
+        typ = rng.choice(["F", "F", "C", "PK", "PK"])
         model0 = base.load()
-        t_init = extract(model0.by_uuid(base.roots[typ]), typ)
         pool = NASTY if rng.random() < 0.6 else PLAIN
-        gy, gv = gen_groups(rng, typ, t_init, rng.randint(0, 3), pool, stats)
+        if rng.random() < 0.7:
+            setup_state(rng, model0.by_uuid(base.roots[typ]), typ, pool, stats)
+        t_init = extract(model0.by_uuid(base.roots[typ]), typ)
+        gy, gv = gen_groups(rng, typ, t_init, rng.randint(0, 3), pool, stats, ref_targets(model0))
         if not gy:
             continue
+        gy = settle_refs(rng, gy, class_entry_names(gy, set()), stats)
         stats["documents"] += 1
         ydoc = [{"parent": decl.UUIDReference(base.roots[typ]), "sync": gy}]
-        t0, trees, snaps, text = apply_twice(base, typ, ydoc)
+        t0, trees, snaps, text = apply_twice(base, typ, ydoc, model0)
         stats["runs"] += len(trees)
         key = f"{tag}:{typ}:{hash(text) & 0xffffffff:x}"
         chk.note_case(key, nontrivial=True)
-        out = [True]
+        wf = wf_val(gv)
+        stats["not_wf"] += not wf
+        out = [wf]
         for tr in trees:
             if isinstance(tr, Err):
                 out.append(tr)
                 stats["errors"] += 1
             else:
                 out.append([tsize(tr), observe(tr)])
-        cases.append(([t0, gv, AKEYS, LKEYS], out))
+        cases.append(([t0, gv, OKEYS, LKEYS], out))
+        if isinstance(trees[0], Err) and "Ambiguous" in str(snaps[0]):
+            stats["first_run_ambiguous"] += 1
         descr.append({"model": tag, "parent": typ, "yaml": text, "error": snaps[-1] if isinstance(trees[-1], Err) else None})
         # ---- oracle: the second run changes nothing (byte-identical XML of every tree, no new element)
         replay = {"model": tag, "parent_type": typ, "yaml": text}
         if len(trees) == 2 and not isinstance(trees[0], Err):
-            if isinstance(trees[1], Err):
+            if not wf and (isinstance(trees[1], Err) or snaps[0] != snaps[1]):
+                # two entries of one list with the same name and different further find keys / set values (outside
+                # find_keys_stable): one entry's creation or `set` changes what the other entry's find matches
+                amb = isinstance(trees[1], Err) and "Ambiguous" in str(snaps[1])
+                chk.violation("sync-overlapping-find-keys:" + ("second-run-ambiguous" if amb else "second-run-differs"),
+                              "two sync entries of one list share a name and differ in further find keys: what one entry creates or "
+                              "sets changes what the other one finds, the second run " +
+                              (f"raises {snaps[1]}" if isinstance(trees[1], Err) else "changes the model"), replay)
+            elif isinstance(trees[1], Err):
                 chk.violation(f"sync-second-run-fails:{key}", f"the second application of a sync document raises {snaps[1]}", replay)
             elif snaps[0] != snaps[1]:
                 n1 = sum(s.count(b" id=") for _, s in snaps[0])
@@ -224,9 +384,11 @@ def run(chk: lib.Check):
                    describe=lambda i: descr[i])
 
     # ---- streams outside the proved guard (oracle only)
-    def twice_oracle(base, ydoc, key, what, replay_extra=None):
-        text = yaml.dump(ydoc, Dumper=decl.YDMDumper, sort_keys=False)
+    def twice_oracle(base, ydoc, key, what, replay_extra=None, setup=None):
         model = base.load()
+        if setup is not None:
+            ydoc = setup(model)
+        text = yaml.dump(ydoc, Dumper=decl.YDMDumper, sort_keys=False)
         snaps, canons = [], []
         for i in range(2):
             try:
@@ -290,6 +452,48 @@ def run(chk: lib.Check):
                                                                           "set": {"summary": "nested attr"}}]}}],
                          f"sync-nested-attr-find:{tag}", "a sync entry with a find key on a nested attribute is not idempotent")
             o_stats["nested_attr_find"] += 1
+    # find keys of every value shape (scalar, !uuid, !find, !promise) against 0, 1 and 2 existing matches, on a class
+    # (key `super`) and on a property below a class (key `type`); the promise is declared by another sync entry,
+    # before or after its use.  0 / 1 match: the second run changes nothing; 2 matches: the first run is refused
+    # (if it is not, the second run still has to change nothing)
+    o_stats["find_value_matrix"] = 0
+    for tag, base in bases.items():
+        for level in ("class", "property"):
+            for shape in ("scalar", "uuid", "find", "promise-first", "promise-last"):
+                for nmatch in (0, 1, 2):
+                    def setup(model, level=level, shape=shape, nmatch=nmatch, base=base):
+                        pk = model.by_uuid(base.roots["PK"])
+                        tgt = pk.classes.create(name="fk-T")
+                        if level == "class":
+                            for _ in range(nmatch):
+                                pk.classes.create(name="fk-K", super=tgt, summary="s")
+                        else:
+                            k = pk.classes.create(name="fk-K")
+                            for _ in range(nmatch):
+                                k.owned_properties.create(name="fk-p", type=tgt, summary="s")
+                        ref = {"scalar": None, "uuid": decl.UUIDReference(tgt.uuid),
+                               "find": decl.FindBy({"_type": "Class", "name": "fk-T"})}.get(shape, decl.Promise("pT"))
+                        refkey = "super" if level == "class" else "type"
+                        f = {"name": "fk-K" if level == "class" else "fk-p"}
+                        if ref is None:
+                            f["summary"] = "s"
+                        else:
+                            f[refkey] = ref
+                        entry = {"find": f, "set": {"description": "synced"}}
+                        if level == "property":
+                            entry = {"find": {"name": "fk-K"}, "sync": {"owned_properties": [entry]}}
+                        pkref = decl.UUIDReference(base.roots["PK"])
+                        doc = [{"parent": pkref, "sync": {"classes": [entry]}}]
+                        d_decl = {"parent": pkref, "sync": {"classes": [{"find": {"name": "fk-T"}, "promise_id": "pT"}]}}
+                        if shape == "promise-first":
+                            doc = [d_decl] + doc
+                        elif shape == "promise-last":
+                            doc = doc + [d_decl]
+                        return doc
+                    twice_oracle(base, None, f"sync-find-value:{level}:{shape}:{nmatch}",
+                                 f"a sync entry whose find key on a {level} has a {shape} value, with {nmatch} existing match(es), "
+                                 "is not idempotent", setup=setup)
+                    o_stats["find_value_matrix"] += 1
     chk.coverage["sync_oracle_streams"] = o_stats
 
     # ================================================================== (b)
